@@ -126,6 +126,11 @@ SCHED_SETS = [
     [("INBOX", ["EXPUNGE", "NOOP"]), ("INBOX", ["APPEND INBOX", "NOOP"]), ("INBOX", ["UID STORE 1:* +FLAGS (kwx)", "NOOP"])],
     [("INBOX", ["UID EXPUNGE 2", "UID FETCH 1:* (FLAGS)"]), ("INBOX", ["UID COPY 1:* INBOX", "NOOP"]), ("INBOX", ["CHECK"])],
     [("pop3", ["DELE 1", "DELE 2", "QUIT"]), ("INBOX", ["UID STORE 3:5 +FLAGS (\\Seen)", "NOOP"]), ("INBOX", ["NOOP", "UID FETCH 1:* (FLAGS)"])],
+    # an EXPUNGE issued while another session's command (which produces updates for the expunger) is still unanswered
+    [("INBOX", ["UID STORE 1:5 +FLAGS (\\Flagged)", "NOOP"]), ("INBOX", ["EXPUNGE", "NOOP"])],
+    [("INBOX", ["UID EXPUNGE 4", "NOOP"]), ("INBOX", ["UID EXPUNGE 2", "NOOP"])],
+    [("INBOX", ["UID MOVE 4 other", "NOOP"]), ("INBOX", ["UID EXPUNGE 2", "NOOP"]), ("INBOX", ["NOOP"])],
+    [("INBOX", ["UID STORE 1:* FLAGS (kwx)", "NOOP"]), ("INBOX", ["UID STORE 3 +FLAGS (\\Deleted)", "EXPUNGE", "NOOP"]), ("INBOX", ["EXPUNGE", "NOOP"])],
 ]
 
 
